@@ -101,7 +101,8 @@ class DelayedMarshaller(routines.AbstractMarshaller[T]):
     def resolved(self) -> routines.AbstractMarshaller[T]:
         """The resolved marshaller."""
         if self._resolved is None:
-            self._resolved = marshaller(self.t)
+            # (The class the reference names *now*: a name may have been bound to another class since.)
+            self._resolved = marshaller(refs.evaluate(self.t))
             for attr in self._resolved.__slots__:
                 setattr(self, attr, getattr(self._resolved, attr))
         return self._resolved
